@@ -16,6 +16,7 @@ Validated input and output of tabular data in various formats.
 # You should have received a copy of the GNU Lesser General Public License
 # along with this program.  If not, see <http://www.gnu.org/licenses/>.
 import itertools
+import sys
 
 from cutplace import _compat, data, errors, interface, rowio
 
@@ -290,12 +291,22 @@ class Reader(BaseValidator):
 
         :raises cutplace.errors.DataError: on broken data
         """
-        rows_to_validate = self.rows()
-        if self._validate_until is not None:
-            # Same as validate(): do not read on once the rows to validate are through.
-            rows_to_validate = itertools.islice(rows_to_validate, self._validate_until)
-        for _ in rows_to_validate:
-            pass
+        # Without any row to validate, ``rows()`` never starts and leaves the counters unset.
+        self.accepted_rows_count = 0
+        self.rejected_rows_count = 0
+        # Count every row read, including rejected ones that ``on_error='continue'`` would skip quietly.
+        on_error = self._on_error
+        if on_error == "continue":
+            self._on_error = "yield"
+        try:
+            rows_to_validate = self.rows()
+            if self._validate_until is not None:
+                # Same as validate(): do not read on once the rows to validate are through.
+                rows_to_validate = itertools.islice(rows_to_validate, min(self._validate_until, sys.maxsize))
+            for _ in rows_to_validate:
+                pass
+        finally:
+            self._on_error = on_error
 
 
 class Writer(BaseValidator):
@@ -414,6 +425,6 @@ def validate(cid_or_path, data_stream_or_path, validate_until=None):
     with Reader(cid_or_path, data_stream_or_path, validate_until=validate_until) as reader:
         rows_to_validate = reader.rows()
         if validate_until is not None:
-            rows_to_validate = itertools.islice(rows_to_validate, validate_until)
+            rows_to_validate = itertools.islice(rows_to_validate, min(validate_until, sys.maxsize))
         for _ in rows_to_validate:
             pass
